@@ -248,12 +248,37 @@ def v_np_dpspr(c):
     c.ensure_eq("spread_at_peak_or_nan", r, want)
 
 
-def stub_alpha(spectrum, freq, fp):
-    """callers only rely on alpha returning a real number (its value clause is bounded)"""
-    import z3
-    from engine.pyse.core import fresh_name
+def alpha_uf(S, F, n, fp):
+    """Phillips alpha of the spectrum S on the grid F as an UNINTERPRETED function of the peak
+    frequency it is given: one function symbol per (S, F, n) content (keyed on the element terms at a
+    canonical index), so `alpha(S, F, fp1) == alpha(S, F, fp2)` only follows from `fp1 == fp2`.
+    NaN exactly when fp is NaN (contract `nan_peak_frequency_gives_nan` of npstats.alpha)."""
+    import hashlib
 
-    return Sym(z3.Real(fresh_name("alpha")))
+    K = Sym(z3.Int("K#alpha"))
+
+    def canon(t):
+        t = z3.simplify(t)
+        while z3.is_app(t) and t.decl().kind() == z3.Z3_OP_ITE:  # e.g. max(NF, 0) with NF >= 0 known
+            if CTX.entails(t.arg(0)):
+                t = t.arg(1)
+            elif CTX.entails(z3.Not(t.arg(0))):
+                t = t.arg(2)
+            else:
+                break
+        return t.sexpr()
+
+    key = canon(as_sym(S(K)).t) + "|" + canon(as_sym(F(K)).t) + "|" + canon(as_sym(n).t)
+    fn = z3.Function("ALPHA_" + hashlib.sha1(key.encode()).hexdigest()[:12], z3.RealSort(), z3.RealSort())
+    fp = as_sym(fp)
+    return Sym(fn(fp.real()), fp.nan)
+
+
+def stub_alpha(spectrum, freq, fp):
+    """callers see alpha as a function of (spectrum, grid, peak frequency); its value clause is
+    the npstats.alpha contract"""
+    spectrum, freq = A.asarr(spectrum), A.asarr(freq)
+    return alpha_uf(lambda i: spectrum.get((as_sym(i),)), lambda i: freq.get((as_sym(i),)), spectrum.shape_[0], fp)
 
 
 @contract(NP + "alpha", props=["C20", "C02"], scenarios=[{}], stub=stub_alpha)
@@ -276,6 +301,9 @@ def v_np_alpha(c):
     r = c.call(S, F, fp)
     if m.symbolic:
         c.ensure("finite_result", m.not_(m.isnan(r)))
+        from engine.pyse.core import NANSYM
+        r2 = c.call(S, F, NANSYM)
+        c.ensure("nan_peak_frequency_gives_nan", m.isnan(r2))
     else:
         c.ensure_eq("window_mean_definition", r, s_alpha_kernel(m, lambda i: S[i], lambda i: F[i], n, fp))
 
@@ -397,21 +425,65 @@ def v_x_dp(c, dims):
     c.ensure_eq("direction_of_largest_frequency_summed_bin", c.value(r, pos), s_dp(c.m, V, pos))
 
 
+def s_alpha(m, V, pos, smooth=True):
+    """Phillips alpha of the direction-integrated spectrum, given the peak frequency of THE peak"""
+    S = lambda i: (s_oned(m, V, pos, i) if V.has_dir else V.E(pos, i))
+    fp = 1.0 / (s_tp2d(m, V, pos, smooth) if V.has_dir else s_tp(m, V, pos, smooth))
+    if m.symbolic:
+        return alpha_uf(S, V.f, V.NF, fp)
+    if fp != fp:
+        return m.nan
+    return s_alpha_kernel(m, S, V.f, V.NF, fp)
+
+
+stub_alpha_x = _scalar_stub_fn(s_alpha, "alpha")
+
+
+def _alpha_eq(c, clause, got, want):
+    """alpha is computed from the float32 copy of the frequencies and returned as float32; f**5 and
+    exp(1.25 (fp/f)**4) amplify that rounding, so the concrete comparison uses rtol 1e-4"""
+    if c.m.symbolic:
+        return c.ensure_eq(clause, got, want)
+    g, w = float(got), float(want)
+    ok = (g != g and w != w) or (g == g and w == w and abs(g - w) <= 1e-4 * max(abs(g), abs(w)) + 1e-12)
+    c.ensure_true(clause, ok, f"alpha {g} vs {w}")
+
+
+@contract(XS + "alpha", props=["C02", "C06", "C20"],
+          scenarios=[{"dims": d, "smooth": s} for d in DIMS_1D for s in (True, False)],
+          uses=[XS + "peak_wave_period", NP + "alpha"], stub=stub_alpha_x)
+def v_x_alpha(c, dims, smooth):
+    da = c.spectrum(dims, min_nf=3)
+    r = c.call(da, smooth=smooth)
+    V = View(da)
+    pos = c.position(V)
+    c.ensure_dims("dims", r, V.pos_dims)
+    _alpha_eq(c, "alpha_of_this_spectrum_at_the_same_peak_or_nan", c.value(r, pos), s_alpha(c.m, V, pos, smooth))
+
+
 # ---------------------------------------------------------------------------------------
 # accessor methods
 
 
-def _acc(name, spec, uses, kwargs_list=({},), scen=SC_2D, props=("C02", "C06", "C20"), min_nf=3, symbolic_value=True):
+def _acc(name, spec, uses, kwargs_list=({},), scen=SC_2D, props=("C02", "C06", "C20"), min_nf=3, symbolic_value=True, focus=False):
     scenarios = [dict(s, kw=kw) for s in scen for kw in kwargs_list]
 
     def verify(c, dims, kw):
         da = c.spectrum(dims, min_nf=min_nf)
+        if focus and c.m.symbolic and "dir" in dims:
+            # the bin width gets a name, so that code and specification see the same single unknown
+            from contracts.specarray_stats import s_dd
+            da._verif_dd_name = c.define("dd", s_dd(c.m, View(da)))
+        mk = 0 if focus else None  # focused stage over all facts of the contract (rewriting + abstraction)
         r = c.call(da.spec, **kw)
         V = View(da)
         pos = c.position(V)
         c.ensure_dims("dims", r, V.pos_dims)
         if symbolic_value or not c.m.symbolic:
-            (c.ensure_angle_eq if name in ("dpm", "dp") else c.ensure_eq)("at_the_true_peak", c.value(r, pos), spec(c.m, V, pos, **kw))
+            if name == "alpha":
+                _alpha_eq(c, "at_the_true_peak", c.value(r, pos), spec(c.m, V, pos, **kw))
+            else:
+                (c.ensure_angle_eq if name in ("dpm", "dp") else c.ensure_eq)("at_the_true_peak", c.value(r, pos), spec(c.m, V, pos, **kw), since=mk)
         own_position_only(c, da, r, pos, recompute=lambda d2: c.call(d2.spec, **kw))
 
     verify.__name__ = "v_acc_" + name
@@ -461,7 +533,9 @@ def stub_acc_fp(self, smooth=True):
 
 _api.CONTRACTS[SA + "fp"].stub = stub_acc_fp
 
+_acc("alpha", s_alpha, [ONED, XS + "alpha"], kwargs_list=({}, {"smooth": False}))
+
 # gamma: the value clause is checked on concrete replays only (BOUNDED): the symbolic equality of
 # the degree-4 polynomial in a quotient of Sigma terms is not discharged within the budget
 _acc("gamma", s_gamma, [ONED, HS, SA + "fp", PEAK], kwargs_list=({}, {"smooth": False}, {"scaled": False}),
-     symbolic_value=False)
+     symbolic_value=True, focus=True)
